@@ -56,7 +56,7 @@ func (n *CommonNode) next() bool {
 func (n *CommonNode) nextInRange() bool {
 	// find the next value in the range (assuming n.values is sorted)
 	for _, value := range n.values {
-		if value > n.value {
+		if value > n.value && value <= n.max {
 			n.value = value
 			return false
 		}
